@@ -14,6 +14,7 @@ import (
 	"testing"
 	"time"
 
+	"github.com/superfly/litefs/verif/gen"
 	"github.com/superfly/litefs/verif/node"
 	"github.com/superfly/litefs/verif/pager"
 	"github.com/superfly/litefs/verif/pbt"
@@ -76,20 +77,6 @@ func genPlan(t *rapid.T) Plan {
 		}
 	}
 	return p
-}
-
-// ImportImage builds a valid database image of n pages for DB.Import.
-func ImportImage(pageSize uint32, mode int, n, ver uint32) *ref.Image {
-	img := ref.NewImage(pageSize)
-	lock := ref.LockPgno(pageSize)
-	for p := uint32(2); p <= n; p++ {
-		if p != lock {
-			img.Set(p, ref.MakePage(pageSize, p, ver, byte(ver)))
-		}
-	}
-	img.Resize(n)
-	img.Set(1, ref.MakeHeaderPage(pageSize, mode, ver, n, ver, byte(ver)))
-	return img
 }
 
 func runPlan(c *pbt.Case, p Plan) {
@@ -228,7 +215,7 @@ func runPlan(c *pbt.Case, p Plan) {
 			if p.Mode == pager.WAL {
 				mode = ref.ModeWAL
 			}
-			img := ImportImage(p.PageSize, mode, st.N, st.Ver)
+			img := gen.ImportImage(p.PageSize, mode, st.N, st.Ver)
 			db, err := n.Store.CreateDBIfNotExists(name)
 			if err != nil {
 				c.Failf("C04/op-error", "step %d: %v", i, err)
@@ -237,12 +224,7 @@ func runPlan(c *pbt.Case, p Plan) {
 			if err := db.Import(context.Background(), bytes.NewReader(img.Bytes())); err != nil {
 				c.Failf("C04/import-error", "step %d: import of a valid %d-page image refused: %v", i, st.N, err)
 			}
-			// import resets the change counter and schema cookie of page 1
-			p1 := append([]byte(nil), img.Page(1)...)
-			copy(p1[24:28], []byte{0, 0, 0, 0})
-			copy(p1[40:44], []byte{0, 0, 0, 0})
-			img.Set(1, p1)
-			model.Img, model.Wal, model.Change = img, pager.WalIndex{}, 0
+			model.Img, model.Wal, model.Change = gen.AfterImport(img), pager.WalIndex{}, 0
 			newConn()
 			c.Label("import")
 			nontrivial = true
